@@ -49,6 +49,17 @@ func main() {
 		if err := rep.Write(*out); err != nil {
 			die("write: %v", err)
 		}
+	case "flowprog":
+		evs := gate.FlowProgram(int64(*seed), *reps, 40)
+		f, err := os.Create(*out)
+		if err != nil {
+			die("create: %v", err)
+		}
+		enc := json.NewEncoder(f)
+		for _, e := range evs {
+			_ = enc.Encode(e)
+		}
+		f.Close()
 	case "gatestress":
 		obs := gate.Stress(int64(*seed), *reps)
 		f, err := os.Create(*out)
